@@ -1,5 +1,7 @@
 (* C19 -- Configuration resolves with documented precedence and works from the environment. *)
 From Deep Require Import Base Config ConfigProofs.
+From DeepGen Require Import PTruth PFrames.
+From Deep Require Import TieTruth TieFrames.
 
 Theorem C19_precedence :
   forall own custom dflt env,
@@ -59,3 +61,14 @@ Example C19_example :
   is_app_frame (as_prefixes (VText [47;118;44;47;116]) ++ [[47;117]]) (as_prefixes (VList [[47;111]])) [47;97] [47;97;47;109]
   = (true, Some [47;97]) /\ as_interval (VText [49;48]) = Some 10%nat.
 Proof. vm_compute. split; reflexivity. Qed.
+
+(* ---- tie by translation: ConfigService.is_app_frame and str2bool as they are in /repo/src NOW *)
+Theorem C19_the_code_app_frame_is_the_model :
+  forall excl incl ep root f,
+  gen_is_app_frame excl incl ep root f = is_app_frame (with_exec_prefix ep excl) incl root f.
+Proof. exact tie_is_app_frame. Qed.
+Print Assumptions C19_the_code_app_frame_is_the_model.
+
+Theorem C19_the_code_truth_words_are_the_model : forall s, gen_str2bool s = str2bool s.
+Proof. exact tie_str2bool. Qed.
+Print Assumptions C19_the_code_truth_words_are_the_model.
